@@ -44,7 +44,7 @@ func (k Keeper) RegisterExecutorChangePlan(
 	}
 
 	// the key has to be usable as a consensus key, otherwise the end blocker panics at the plan height
-	if _, err := cryptocodec.ToCmtProtoPublicKey(pubKey); err != nil {
+	if _, err := cryptocodec.ToCmtPubKeyInterface(pubKey); err != nil {
 		return errorsmod.Wrap(types.ErrInvalidExecutorChangePlan, "pub key cannot be used as a consensus key")
 	}
 
